@@ -694,7 +694,17 @@ func (h *nodeH) replies(p *nodePeer, q wire.Message) (out []wire.Message, drop b
 		}
 		p.txActual[h.txPhase] = "accept"
 		gd := wire.NewMsgGetData()
-		_ = gd.AddInvVect(m.InvList[0])
+		iv := *m.InvList[0]
+		if p.txReply[h.txPhase] == "accept-other-inv-type" {
+			// asks for the announced transaction under the other
+			// inventory type (with / without witness data)
+			if iv.Type == wire.InvTypeWitnessTx {
+				iv.Type = wire.InvTypeTx
+			} else {
+				iv.Type = wire.InvTypeWitnessTx
+			}
+		}
+		_ = gd.AddInvVect(&iv)
 		return []wire.Message{gd}, false
 
 	case *wire.MsgTx:
@@ -1862,7 +1872,7 @@ func (h *nodeH) callEvents(mode nodeMode) []nodeEv {
 // real sendTransaction, against remotes that answer a transaction
 // announcement with getdata (accept), getdata + reject, or nothing.
 
-var c15Replies = []string{"accept", "invalid", "mempool", "confirmed", "silent"}
+var c15Replies = []string{"accept", "invalid", "mempool", "confirmed", "silent", "accept-other-inv-type"}
 var c15Later = []string{"accept", "mempool", "confirmed"}
 
 // c15Verdict summarises what a set of replies means according to the
